@@ -124,6 +124,18 @@ def explore(ctx, replay=None, search_boost=False):
             continue
         v, h = nc.views(out)
         names = {i: nm for i, (reg, nm) in h.items() if reg}
+        # a participant that announced a name (hostnameChanged), never announced another, and at the end is neither
+        # registered nor in the middle of a probe (no probe of its own in the last 3 s) still counts as holding that name
+        end = max([int(l.split()[0]) for l in out if l.split() and l.split()[0].isdigit()] or [0])
+        probes = hostname_probes(out)
+        last_note = {}
+        for l in out:
+            w = l.split()
+            if len(w) == 6 and w[1] == "NODE" and w[3] == "SIG" and w[4] == "hostnameChanged":
+                last_note[int(w[2])] = w[5]
+        for i, (reg, nm) in h.items():
+            if not reg and i in last_note and not [p for p in probes.get(i, []) if p >= end - 3000]:
+                names.setdefault(i, last_note[i])
         if len(set(names.values())) > 1:
             nontrivial.add("\n".join(lines))
         brief = [l for l in out if l != "." and " SENT" not in l][-20:]
